@@ -197,8 +197,12 @@ def main():
     requests = []   # (lean request line, python result dict, description)
     n_exc = 0
     caller_changed = []   # (history, k) : caller array changed by an object operation
-    for h in range(args.n):
-        hist = draw_history(rng, args.caller_writes)
+    # directed histories first: fill every cache, then one method (every row once), then — with caller writes —
+    # a write into the array that call passed; afterwards the random ones
+    directed = [['READALL', m] + (['caller_write#2'] if args.caller_writes else []) for m in METHODS]
+    directed += [['READALL', 'reset_values#80', m] for m in METHODS]
+    for h in range(len(directed) + args.n):
+        hist = directed[h] if h < len(directed) else draw_history(rng, args.caller_writes)
         a0 = rec(rng, N0)
         sf0 = np.array([0.5, 1.0, 2.0, 4.0, 8.0]); rt0 = np.array([0.2, 0.5, 1.0])
         s = eqsig.AccSignal(a0, DT, smooth_fa_freqs=sf0, response_times=rt0)
@@ -279,7 +283,7 @@ def main():
             elif (not model[q]) and (not pf_exact): agree += 1; both_stale += 1
             elif model[q] and not pf_exact: model_fresh_py_stale.append((done, q, pf_close))
             else: model_stale_py_fresh.append((done, q))
-    print('variant', args.variant, 'histories', args.n, 'states checked', len(requests), 'comparisons', n_cmp,
+    print('variant', args.variant, 'histories', len(directed) + args.n, 'states checked', len(requests), 'comparisons', n_cmp,
           'exceptions', n_exc)
     print('  agree', agree, '(both stale: %d)' % both_stale, ' allclose-but-not-bit-equal:', close_only)
     print('  MODEL FRESH / PYTHON STALE :', len(model_fresh_py_stale))
